@@ -66,6 +66,14 @@ class Ctx(object):
             raise AnalysisError('%s graph: %s at %s: %s' % (
                 cmd, n.kind, n.loc(), n.data.get('what') or n.data.get('prim')
                 or n.data.get('func')))
+        dynamic = ('eval', 'exec', '__import__', 'importlib.import_module', 'globals',
+                   'locals', 'setattr', 'delattr', 'compile', 'runpy.run_path',
+                   'runpy.run_module', 'ctypes.CDLL', 'os.fork', 'os.kill',
+                   'multiprocessing.Process', 'threading.Thread')
+        for n in b.nodes('ext'):
+            if n.data.get('fn') in dynamic:
+                raise AnalysisError('%s graph: dynamic feature %s at %s is outside the '
+                                    'analysed language (A5)' % (cmd, n.data['fn'], n.loc()))
         for kind, loc, msg in b.diags:
             if kind in ('unsupported-expr', 'unsupported-stmt', 'unbound-name',
                         'star-kwargs', 'global-stmt', 'unsupported-target',
